@@ -1485,3 +1485,109 @@ pub fn c12_many(seed: u64) -> Scenario {
         params,
     }
 }
+
+// ------------------------------------------------------------------------------------------
+// C13: connect/accept pairing, order, backlog. One listener (node 0), many connector sockets
+// (at most 4 connects may be pending per remote address on one socket, so filling the
+// listener's backlog of 32 takes many sockets).
+
+pub fn c13_pairing(seed: u64) -> Scenario {
+    let mut r = Rng::new(seed ^ 0xC13);
+    let ipv6 = r.chance(0.15);
+    let big = r.chance(0.35); // try to overflow the backlog
+    let n_conn_nodes = if big { r.range(9, 14) as usize } else { r.range(1, 5) as usize };
+    let loss_free = r.chance(0.7);
+    let mut nodes = vec![];
+    let l_opts = OptsCfg {
+        max_live: if r.chance(0.3) { Some(*r.pick(&[1usize, 2, 3, 5, 8])) } else { None },
+        inactivity_ms: Some(r.range(8_000, 20_000)),
+        ..Default::default()
+    };
+    nodes.push(NodeCfg { ipv6, opts: l_opts, env: EnvCfg { seed: r.next(), forced: vec![] } });
+    for _ in 0..n_conn_nodes {
+        nodes.push(NodeCfg { ipv6, opts: OptsCfg { inactivity_ms: Some(r.range(8_000, 20_000)), ..Default::default() }, env: EnvCfg { seed: r.next(), forced: vec![] } });
+    }
+    let b_acc: u64 = if r.chance(0.3) { 0 } else { r.log_range(1, 3_000) };
+    let mut connects = vec![];
+    let mut accepts = vec![];
+    // phases: accepts may come first (waiting acceptors) or late (SYNs pile up in the backlog)
+    let accepts_late = r.chance(0.6);
+    let t_conn0 = if accepts_late { r.range(0, 50) } else { r.range(200, 1000) };
+    let t_acc0 = if accepts_late { r.range(1500, 4000) } else { r.range(0, 100) };
+    let k = if big { r.range(30, 48) as usize } else { r.log_range(1, 16) as usize };
+    let mut connect_cancels = 0;
+    for i in 0..k {
+        let node = 1 + if big { i % n_conn_nodes } else { r.below(n_conn_nodes as u64) as usize };
+        // distinct arrival instants most of the time (ordering is judged on arrival order)
+        let at_ms = t_conn0 + if r.chance(0.8) { i as u64 * r.range(1, 5) } else { r.range(0, 400) };
+        let n = 8 + r.log_range(1, 2_000);
+        let cancel_after_ms = if r.chance(0.12) {
+            connect_cancels += 1;
+            Some(r.log_range(1, 3000))
+        } else {
+            None
+        };
+        let w = vec![WOp::Write { n, chunk: 4096 }, WOp::Flush, WOp::WaitRead(b_acc), WOp::Shutdown];
+        let rd = vec![ROp::Read { n: u64::MAX, buf: 4096, vectored: false }];
+        connects.push(ConnectScript { node, to: 0, at_ms, cancel_after_ms, side: Side { w, r: rd } });
+    }
+    // a second wave of connects after cancellations / closes freed slots
+    if r.chance(0.5) {
+        let extra = r.range(1, 6) as usize;
+        for _ in 0..extra {
+            let node = 1 + r.below(n_conn_nodes as u64) as usize;
+            let at_ms = r.range(5_000, 9_000);
+            let n = 8 + r.log_range(1, 2_000);
+            let w = vec![WOp::Write { n, chunk: 4096 }, WOp::Flush, WOp::WaitRead(b_acc), WOp::Shutdown];
+            let rd = vec![ROp::Read { n: u64::MAX, buf: 4096, vectored: false }];
+            connects.push(ConnectScript { node, to: 0, at_ms, cancel_after_ms: None, side: Side { w, r: rd } });
+        }
+    }
+    let n_acc = match r.below(5) {
+        0 => connects.len().saturating_sub(r.range(1, 3) as usize),
+        1 => connects.len() + r.range(1, 3) as usize,
+        _ => connects.len(),
+    };
+    let mut accept_cancels = 0;
+    for j in 0..n_acc {
+        let at_ms = if r.chance(0.15) { r.range(5_000, 10_000) } else { t_acc0 + j as u64 * r.range(0, 40) };
+        let cancel_after_ms = if r.chance(0.1) {
+            accept_cancels += 1;
+            Some(r.log_range(1, 3000))
+        } else {
+            None
+        };
+        let mut w = vec![];
+        if b_acc > 0 {
+            w.push(WOp::Write { n: b_acc, chunk: 4096 });
+        }
+        w.push(WOp::WaitRead(u64::MAX));
+        w.push(WOp::Shutdown);
+        let rd = vec![ROp::Read { n: u64::MAX, buf: 4096, vectored: false }];
+        accepts.push(AcceptScript { node: 0, at_ms, cancel_after_ms, side: Side { w, r: rd } });
+    }
+    let mut net = NetCfg { seed: r.next(), latency_us: *r.pick(&[0u64, 1_000, 10_000, 40_000]), ..Default::default() };
+    if !loss_free {
+        net.jitter_us = r.range(0, 10_000);
+        net.drop_p = *r.pick(&[0.0, 0.01, 0.03]);
+        net.dup_p = *r.pick(&[0.0, 0.05, 0.2]);
+    }
+    let mut params = std::collections::BTreeMap::new();
+    params.insert("loss_free".to_string(), loss_free as i64);
+    params.insert("acceptor_bytes".to_string(), b_acc as i64);
+    params.insert("accept_cancels".to_string(), accept_cancels);
+    params.insert("connect_cancels".to_string(), connect_cancels);
+    Scenario {
+        family: "c13_pairing".to_string(),
+        seed,
+        net,
+        nodes,
+        connects,
+        accepts,
+        global: vec![],
+        peer: None,
+        script_cap_ms: 60_000,
+        settle_ms: 3_000,
+        params,
+    }
+}
